@@ -59,6 +59,8 @@ func init() {
 			add(ShutdownParams{Case: "gate", Checkpoint: "auto", Mitigation: true, Membership: "static"}, 4)
 			add(ShutdownParams{Case: "save", Checkpoint: "auto", Membership: "static"}, 4)
 			add(ShutdownParams{Case: "savefail", Checkpoint: "auto", Membership: "static"}, 4)
+			add(ShutdownParams{Case: "saveack", Checkpoint: "auto", Membership: "static", MaxPoint: 60}, 4)
+			add(ShutdownParams{Case: "dropduringclose", Checkpoint: "auto", Membership: "static", MaxPoint: 120}, 4)
 			add(ShutdownParams{Case: "rebalance", Checkpoint: "auto", Membership: "dynamic"}, 4)
 			add(ShutdownParams{Case: "reopen", Checkpoint: "auto", Membership: "dynamic"}, 4)
 			add(ShutdownParams{Case: "rebalance", Checkpoint: "auto", Membership: "static"}, 4)
@@ -170,11 +172,28 @@ func shutdownMain(p ShutdownParams) {
 	}
 	settledAtCall := map[uint16]uint64{}
 	closeCalled := false
+	inflightSave := false
+	var closeCallTime int64
+	_ = closeCallTime
 	doClose := func() {
 		for vb, s := range maxAcked(e.Cons) {
 			settledAtCall[vb] = s
 		}
+		if closeCalled {
+			return
+		}
 		closeCalled = true
+		closeCallTime = vrt.NowNanos()
+		if inflightSave {
+			// had the slow periodic save already completed when Close() was called?
+			done := true
+			for _, r := range c.RequestsOf("mutatein") {
+				if r.Answer == "delay" && r.Finished == 0 {
+					done = false
+				}
+			}
+			e.LateSaveAfterInflight = done
+		}
 		vrt.Logf("Close() called")
 		e.D.Close()
 	}
@@ -208,6 +227,28 @@ func shutdownMain(p ShutdownParams) {
 		}
 		vrt.InjectAt("StartSchedule", k, doClose)
 		vrt.Sleep(o.CheckpointInterval + time.Second)
+	case "saveack":
+		// the periodic save is slow; while it is in flight another event is delivered and acknowledged,
+		// and Close() arrives at every point of that delivery (the closing save queues behind the slow one)
+		c.Append(0, marker(3, 3), symbolPacket("M", 3))
+		c.WaitIdle()
+		c.Fault = func(r *gocbcore.SimRequest) gocbcore.SimAnswer {
+			if r.Kind == "mutatein" && strings.Contains(r.Key, ":checkpoint:") && !closeCalled {
+				return gocbcore.SimAnswer{Kind: "delay", Delay: 2 * time.Second}
+			}
+			return gocbcore.SimAnswer{}
+		}
+		vrt.Sleep(o.CheckpointInterval + 500*time.Millisecond) // the periodic save is now waiting for the store
+		inflightSave = true
+		vrt.InjectAt("sim:dcp:events0", k, doClose)
+		c.Append(0, marker(4, 4), symbolPacket("M", 4))
+	case "dropduringclose":
+		// the connection drops (stream end with a re-openable cause) at every point of the teardown
+		doClose()
+		vrt.InjectAt("dcp.Start", k, func() {
+			vrt.Logf("connection dropped during shutdown")
+			c.EndStream(1, gocbcore.ErrSocketClosed)
+		})
 	case "rebalance":
 		vrt.InjectAt("rebalancer", k, doClose)
 		vrt.GoNamed("rebalancer", func() {
@@ -256,7 +297,11 @@ func shutdownMain(p ShutdownParams) {
 		for vb, want := range settledAtCall {
 			got, _ := e.StoredSeq(vb)
 			if got < want {
-				vrt.Failf("%s: vb%d stored %d after shutdown, but %d was settled before Close() was called", desc, vb, got, want)
+				why := ""
+				if inflightSave && e.savesAfterCallSkipped() {
+					why = " [acknowledged while a successful save was in flight and the closing save started after that save had finished: the dump..unmark race of C05]"
+				}
+				vrt.Failf("%s: vb%d stored %d after shutdown, but %d was settled before Close() was called%s", desc, vb, got, want, why)
 			}
 		}
 	}
